@@ -152,7 +152,7 @@ func (p *Prog) E3b() []E3bIssue {
 							// is conditional on a stale read of the very field it writes, and the
 							// function did not itself claim the field in the earlier section
 							// (the in-progress-token idiom: active/recvWait set there, cleared here)
-							if inf.cond == wkey && !writesFieldUnder(e1, fn, wkey, inf.stale) {
+							if inf.cond == wkey && !writesFieldUnder(e1, fn, wkey, inf.stale, in) {
 								toctou = true
 							}
 							if j := strings.LastIndex(wkey, "."); j > 0 {
@@ -367,11 +367,16 @@ func (p *Prog) callSiteLocks(fn *ssa.Function) map[string]bool {
 }
 
 // writesFieldUnder: fn stores to field key inside the critical section in which the load
-// ld was made (same acquisition of some lock).
-func writesFieldUnder(e1 *e1Result, fn *ssa.Function, key string, ld ssa.Instruction) bool {
+// ld was made (same acquisition of some lock), on the way to the later write.
+func writesFieldUnder(e1 *e1Result, fn *ssa.Function, key string, ld ssa.Instruction, later ssa.Instruction) bool {
 	found := false
 	EachInstr(fn, func(in ssa.Instruction) {
 		if found || writtenFieldKey(in) != key {
+			return
+		}
+		// the claim must lie on the way to the later write (a store on a branch that
+		// returns claims nothing for the path that goes on)
+		if later != nil && in != later && !InstrDominates(in, later) {
 			return
 		}
 		for _, a := range e1.held[in] {
